@@ -73,3 +73,37 @@ func VH_C11_a_stalled_execution_request_does_not_wedge_other_sessions() {
 	verifAssert(c11s.started == 1, "C11: while one session's peer stalls inside its execution request, another session's command still reaches the process start (nothing server-wide is held across a peer-controlled wait)")
 	verifAssert(c11s.fails == 2, "C11: both sessions get their one answer")
 }
+
+func c11GetCmdPlain(c net.Conn) (string, string, bool, *pty.Winsize, error) {
+	c11s.calls++
+	return "x", "xterm", false, nil, nil
+}
+
+// A peer that sends a SECOND execution request on its session (the hop client
+// never does; a modified one can): the session's one-slot pty channel still
+// holds the first request's entry unless a window-size tube drained it. The
+// second request must not wait for that slot while holding the server-wide
+// principal lock, or no other session of the server can start anything.
+//
+//verif:prop C11
+//verif:replay none
+//verif:stub hop.computer/hop/codex.GetCmd = c11GetCmdPlain
+//verif:stub hop.computer/hop/codex.SendFailure = c11SendFailure
+//verif:stub os/exec.Command = c11ExecCommand
+//verif:stub hop.computer/hop/hopserver.getGroups = c11GetGroups
+//verif:stub (*hop.computer/hop/tubes.Reliable).GetID = c07TubeID
+//verif:bounds one server, two key-authenticated sessions; session A sends two complete execution requests (command "x", no pty, no window-size tube in between), then session B sends one; each is handled up to the process start (thunks.StartCmd, stubbed to fail); sequential
+//verif:cover served
+func VH_C11_a_second_execution_request_on_a_session_does_not_wedge_the_server() {
+	thunks.LookupUser = c11LookupUser
+	thunks.StartCmd = c11StartCmd
+	s := &HopServer{dpProxy: &agProxy{principals: map[int32]sessID{}}}
+	a := &hopSession{server: s, ID: 1, user: "alice", pty: make(chan *os.File, 1)}
+	b := &hopSession{server: s, ID: 2, user: "bob", pty: make(chan *os.File, 1)}
+	verifBlockingIsViolation()
+	a.startCodex(&tubes.Reliable{}, &tubes.Reliable{})
+	a.startCodex(&tubes.Reliable{}, &tubes.Reliable{})
+	b.startCodex(&tubes.Reliable{}, &tubes.Reliable{})
+	verifCover("served")
+	verifAssert(c11s.started == 3, "C11: a second execution request on one session neither waits forever nor keeps other sessions from starting their commands")
+}
